@@ -198,6 +198,7 @@ class Walker(object):
         self.record_stores = None    # callable(state, frame, loc, value, span) for mod-ref rules
         self.unroll_bound = 64
         self.max_branches = 600
+        self.max_block_visits = 3000
 
     # ------------------------------------------------------------ symbolic values
     def symval(self, name, ty):
@@ -870,6 +871,10 @@ class Walker(object):
             return False
         state.facts[t] = K(value, t.bits)
         op = t.op
+        if op == "ult":
+            for x in t.args:
+                if not x.is_const():
+                    self._collapse(state, x)
         if op == "eq" and value == 1 and t.args[1].is_const():
             return self.assume(state, t.args[0], t.args[1].val)
         if op == "ne" and value == 0 and t.args[1].is_const():
@@ -888,6 +893,14 @@ class Walker(object):
             return self.assume(state, t.args[0], 0) and self.assume(state, t.args[1], 0)
         return True
 
+    def _collapse(self, state, x):
+        """when the recorded comparisons leave one possible value for x, record the equality"""
+        if x.is_const() or x in state.facts or x.bits > 64:
+            return
+        lo, hi = self.range_under(state, x)
+        if lo == hi:
+            state.facts[x] = K(lo, x.bits)
+
     def assume_not(self, state, t, value):
         if t.is_const():
             return t.val != value
@@ -899,6 +912,7 @@ class Walker(object):
         s = set(state.nfacts.get(t, ()))
         s.add(value)
         state.nfacts[t] = frozenset(s)
+        self._collapse(state, t)
         return True
 
     def simplify(self, state, t):
@@ -917,6 +931,19 @@ class Walker(object):
     def range_under(self, state, x):
         """unsigned range of term x refined by the recorded comparisons of x with constants"""
         lo, hi = tm.urange(x)
+        if x.op == "add" and x.args[1].is_const() and not x.args[0].is_const():
+            # y + K without wrap-around
+            k = x.args[1].val
+            ylo, yhi = self.range_under(state, x.args[0])
+            m = tm.mask(x.bits)
+            if k <= m // 2 and yhi + k <= m:
+                lo, hi = max(lo, ylo + k), min(hi, yhi + k)
+            elif k > m // 2 and ylo >= (m + 1 - k):
+                d = m + 1 - k
+                lo, hi = max(lo, ylo - d), min(hi, yhi - d)
+        elif x.op == "zext":
+            ylo, yhi = self.range_under(state, x.args[0])
+            lo, hi = max(lo, ylo), min(hi, yhi)
         for ft, fv in state.facts.items():
             if ft.op == "ult" and fv.is_const():
                 a, b = ft.args
@@ -1145,6 +1172,12 @@ class Walker(object):
             self.stats["steps"] += 1
             if st.steps > self.max_steps:
                 raise Budget("max_steps")
+            vk = ("v", fr.fid, fr.block)
+            vc = st.visits.get(vk, 0) + 1
+            st.visits[vk] = vc
+            if vc > self.max_block_visits:
+                return self.finish(st, "stuck", detail="block bb%d of %s executed %d times in one activation without leaving the loop (%s)" % (
+                    fr.block, fr.fn.path, vc, fr.fn.loc(blk["t"].get("span"))))
             if len(st.pc) > self.max_branches:
                 return self.finish(st, "cut", detail="more than %d branch decisions on one path (unbounded loop over opaque results?) at %s bb%d" % (
                     self.max_branches, fr.fn.path, fr.block))
@@ -1272,6 +1305,12 @@ class Walker(object):
             for ft, fv in st.facts.items():
                 if ft.op == "ult" and ft.args[0] is d and ft.args[1].is_const() and fv.val == 1:
                     hi = min(hi, ft.args[1].val - 1)
+            lo2, hi2 = self.range_under(st, d)
+            lo, hi = max(lo, lo2), min(hi, hi2)
+            if hi - lo < 4096:
+                ex = st.nfacts.get(d, ())
+                if not [v for v in range(lo, hi + 1) if v not in ex and v not in arm_vals]:
+                    feasible_other = False
             if d.bits == 1 and len(set(arm_vals)) == 2:
                 feasible_other = False
             elif hi - lo + 1 <= len(set(a for a in arm_vals if lo <= a <= hi)):
@@ -1503,6 +1542,14 @@ class Walker(object):
                 if pty is None:
                     continue
                 nm = "hv%d:%s.%d" % (len(st.trace), path.split("::")[-1], i)
+                if isinstance(cur, Agg) and cur.kind == ("array",) and len(cur.fields) <= 512 and all(isinstance(x, T) for x in cur.fields) and cur.fields:
+                    # a fixed-size buffer stays a buffer of that size with unknown contents
+                    bits = cur.fields[0].bits
+                    self.store_to(st, a.obj, a.proj, Agg(("array",), 0, [tm.sym("%s[%d]" % (nm, k), bits) for k in range(len(cur.fields))]))
+                    continue
+                if isinstance(cur, SymArr):
+                    self.store_to(st, a.obj, a.proj, SymArr(nm, cur.ety, cur.length))
+                    continue
                 self.store_to(st, a.obj, a.proj, self.symval(nm, pty))
         st.trace.append(Effect(path, tuple(args), ret, span, fr.fn.path, len(st.frames)))
         self.store_to(st, dest_obj, dest_proj, ret)
